@@ -11,6 +11,7 @@ import (
 	"strconv"
 	"strings"
 
+	"go.brendoncarroll.net/p2p"
 	"go.brendoncarroll.net/p2p/p/kademlia"
 	"go.brendoncarroll.net/p2p/p/mbapp"
 	"go.brendoncarroll.net/p2p/p/p2pke"
@@ -37,6 +38,17 @@ func srcDo(op []string) string {
 		n := func(i int) int { v, _ := strconv.ParseInt(op[i], 10, 64); return int(v) }
 		u := func(i int) uint64 { v, _ := strconv.ParseUint(op[i], 10, 64); return v }
 		switch op[0] + " " + op[1] {
+		case "vec gather":
+			var v p2p.IOVec
+			if op[3] != "-" {
+				for _, seg := range strings.Split(op[3], ",") {
+					v = append(v, hx.Exact(hx.UnHex(seg)))
+				}
+			}
+			return fmt.Sprintf("%d %s", p2p.VecSize(v), hx.Hex(p2p.VecBytes(a(2), v)))
+		case "ke gate":
+			cs, cr, rd := p2pke.VerifGates(op[2] == "1", uint8(u(3)))
+			return b2s(cs) + b2s(cr) + b2s(rd)
 		case "kad lz":
 			return strconv.Itoa(kademlia.LeadingZeros(a(2)))
 		case "kad xor":
@@ -251,6 +263,16 @@ func srcStream(r *rand.Rand, n int, tier string, o *hx.Out) {
 			}
 			emit("ke class " + hx.Hex(x))
 			emit("ke nonce " + hx.Hex(x))
+			emit(fmt.Sprintf("ke gate %d %d", r.Intn(2), hx.Pick(r, 0, 1, 2, 3, 4, 8, 255, r.Intn(256))))
+			var segs []string
+			for k := 0; k < hx.Pick(r, 0, 1, 2, 3, r.Intn(9)); k++ {
+				segs = append(segs, hx.Hex(hx.Bytes(r, hx.Pick(r, 0, 0, 1, 2, 5, r.Intn(40)))))
+			}
+			sv := "-"
+			if len(segs) > 0 {
+				sv = strings.Join(segs, ",")
+			}
+			emit(fmt.Sprintf("vec gather %s %s", hx.Hex(hx.Bytes(r, hx.Pick(r, 0, 0, 1, 4))), sv))
 		case 8, 9:
 			// counters around a moving front: in order, duplicates, behind the window, far jumps, around 2^64
 			lim := hx.Pick(r, ^uint64(0), uint64(1)<<32-2, 5000, 0)
